@@ -300,6 +300,7 @@ class OptCheck(Check):
                           "src/options/multi_option.cpp", "src/options/toggle.cpp", "src/env/get.cpp"])
     ocaml = dict(name="opt", extracted="opt_model.ml", glue=("glue_base.ml", "glue_z.ml", "glue_sub.ml"))
     oracle_args = ("oracle", "spec")
+    oracle_all = True
     modelled_note = ("modelled, not verified: std::map ordering of options by name, std::multiset::count over the letters of a short token, "
                      "std::getline for ';'-separated environment values, getenv/setenv, object lifetime; argv strings and environment values "
                      "contain no NUL byte; int overflow of toggle counts is outside the model (Z)")
